@@ -198,7 +198,7 @@ func c10Run(r *vkit.Run) {
 	if !vsched.SeamAvailable() {
 		r.HarnessError("mcheck must be built with the runtime map-order seam")
 	}
-	n, bound := 2, 1
+	n, bound := 2, 2
 	if r.Thorough() {
 		n, bound = 3, 2
 	}
